@@ -1,8 +1,34 @@
 import TRV.Oracle.Util
-/-! Oracle operations: Wire (stub, filled in by the module that owns it). -/
-namespace TRV.Oracle.Wire
-open TRV.Oracle
+import TRV.Model.Link
+/-!
+Oracle operations for the link-layer glue.
 
-def handlers : List (String × Handler) := []
+* `link.strip <framehex>` → `error` | `skip` | `pkt <hex>`: `TRV.Link.strip` (`stripEthernetHeader`)
+* `link.hand <framehex>` → `none` | `pkt <hex>`: `TRV.Link.handUp` (one frame through `afPacketSource.Read`)
+-/
+namespace TRV.Oracle.Wire
+open TRV TRV.Oracle
+
+def strip : Handler := fun args => orBad do
+  match args with
+  | [hex] => do
+    let f ← parseHex hex
+    pure (match Link.strip f with
+      | .error => "error"
+      | .skip => "skip"
+      | .packet p => "pkt " ++ toHex p)
+  | _ => none
+
+/-- `link.hand <framehex>` → `none` | `pkt <hex>`: what one frame contributes to a read (`TRV.Link.handUp`) -/
+def hand : Handler := fun args => orBad do
+  match args with
+  | [hex] => do
+    let f ← parseHex hex
+    pure (match Link.handUp f with
+      | none => "none"
+      | some p => "pkt " ++ toHex p)
+  | _ => none
+
+def handlers : List (String × Handler) := [("link.strip", strip), ("link.hand", hand)]
 
 end TRV.Oracle.Wire
